@@ -18,6 +18,13 @@ NOW_BY_ARG = []        # (argument index, path id, loc): get_next_wakeup returns
 
 def wakeup_paths(chk, m, K, Kconst):
     del NOW_BY_ARG[:]
+    # a kernel member the wake-up decision tests against 0: is it the run queue's length (S12)?
+    known = {"current", "state", "now", "runq", "atomic_runq", "timerq", "taint_flags"}
+    for extra in [k for k in K.members if k not in known]:
+        if fib.check_counter_tracks_runq(chk, m, K, extra) is True:
+            fib.COUNTER_OK[extra] = True
+        else:
+            fib.COUNTER_OK.pop(extra, None)
     fn, ps = fib.fn_paths(m, "get_next_wakeup")
     chk.note_fn(fn)
     now = ("ld", K.kptr("now"), 4)
